@@ -195,10 +195,20 @@ func (n *rnode) print(sp spelling, counter *int, top bool) string {
 	case "bin":
 		op := n.sym
 		pad := sep
-		if op == "and" || op == "or" || op == "in" {
-			if pad == "" {
-				pad = " "
+		if (op == "and" || op == "or" || op == "in") && pad == "" {
+			// tight spelling of a keyword operator: a space only where the
+			// word would otherwise run into its operand - none next to a
+			// parenthesis or bracket: (a)and(b), a[0]in(c)
+			l, r := k(0), k(1)
+			lp, rp := " ", " "
+			if strings.HasSuffix(l, ")") || strings.HasSuffix(l, "]") || strings.HasSuffix(l, "}") {
+				lp = ""
 			}
+			if strings.HasPrefix(r, "(") {
+				rp = ""
+			}
+			s = l + lp + op + rp + r
+			break
 		}
 		if op == "." {
 			pad = ""
